@@ -7,6 +7,7 @@ import SplVerif.Lemmas.Prefix
 import SplVerif.Lemmas.Total
 import SplVerif.Lemmas.Shift
 import SplVerif.Lemmas.FreshEnd
+import SplVerif.Lemmas.ParseClean
 
 namespace Spl.C05
 
@@ -322,6 +323,50 @@ theorem declarations_behind_damage_as_before (A B : List Token) (progA progB : P
           exact (List.take_append_drop i p.decls).symm
         | err k x => rw [hrest] at hbig; simp [prependRes] at hbig
         | panic e => rw [hrest] at hbig; simp [prependRes] at hbig
+
+
+theorem refErrors_nil {α} (errs : α → List SplError) (r : Ref α) (h : refErrors errs r = []) : errs r.val = [] := by
+  simpa [refErrors] using h
+
+/-- **The syntax diagnostics of the damaged program lie outside the declarations behind the damage.**  In the setting of
+    `declarations_behind_damage_as_before`: the copies of the undamaged declarations carry no diagnostic, so every
+    diagnostic of the parse is attached to the program node or to a declaration node in front of them (the damaged
+    declaration and what the recovery made of it) or behind them. -/
+theorem diagnostics_outside_undamaged_declarations (A B : List Token) (progA progB : Program)
+    (hA : Grammar.parseAbs A = some progA) (hB : Parse.parse B = .ok progB)
+    (pre post : List (Ref GlobalDecl)) (d0 : Ref GlobalDecl) (hsp : progA.decls = pre ++ d0 :: post)
+    (eB : Nat) (hsuf : B.drop eB = A.drop d0.val.info.range.lo) (hfB : Fresh B.toArray eB) :
+    ∃ preB restB, progB.decls = preB ++
+      ((d0 :: post).map Grammar.relDecl).map (fun r => ⟨r.val, r.offset - d0.val.info.range.lo + eB⟩) ++ restB ∧
+      progB.errors = progB.info.errors ++ preB.flatMap (refErrors GlobalDecl.errors) ++
+        restB.flatMap (refErrors GlobalDecl.errors) := by
+  obtain ⟨preB, restB, hd⟩ := declarations_behind_damage_as_before A B progA progB hA hB pre post d0 hsp eB hsuf hfB
+  refine ⟨preB, restB, hd, ?_⟩
+  -- the undamaged derivation carries no diagnostic
+  have hclean : ∀ x ∈ d0 :: post, refErrors GlobalDecl.errors (Grammar.relDecl x) = [] := by
+    simp only [Grammar.parseAbs] at hA
+    split at hA
+    · cases hA
+    · split at hA
+      · cases hA
+      · rename_i ds last hds
+        simp only [Option.some.injEq] at hA
+        subst hA
+        simp only at hsp
+        have := decls_errs _ _ _ _ _ hds
+        intro x hx
+        exact relDecl_errs x (this x (by rw [hsp]; exact List.mem_append_right _ hx))
+  simp only [Program.errors, hd, List.flatMap_append, List.append_assoc]
+  have hmid : (((d0 :: post).map Grammar.relDecl).map (fun r => (⟨r.val, r.offset - d0.val.info.range.lo + eB⟩ : Ref GlobalDecl))).flatMap
+      (refErrors GlobalDecl.errors) = [] := by
+    rw [flatMap_nil_iff]
+    intro r hr
+    simp only [List.mem_map] at hr
+    obtain ⟨r1, ⟨x, hx, rfl⟩, rfl⟩ := hr
+    have := refErrors_nil _ _ (hclean x hx)
+    simp [refErrors, this]
+  rw [hmid]
+  simp
 
 end
 
